@@ -8,6 +8,7 @@ def dispatch (line : String) : String :=
   | "c03" :: rest => (handleC03 rest).getD "err|bad-request"
   | "c04" :: rest => (handleC04 rest).getD "err|bad-request"
   | "c05" :: rest => (handleC05 rest).getD "err|bad-request"
+  | "c06" :: rest => (handleC06 rest).getD "err|bad-request"
   | "c07" :: rest => (handleC07 rest).getD "err|bad-request"
   | "c12" :: rest => (handleC12 rest).getD "err|bad-request"
   | "c17" :: rest => (handleC17 rest).getD "err|bad-request"
